@@ -659,12 +659,13 @@ def computedIterStep (dataLen itemLen : Nat) (i : Nat) : Out Nat × Nat :=
   else if itemLen * i ≤ dataLen then (.yield (itemLen * i), i + 1)
   else (.done, i + 1)
 
-/-- `ComputedArray::get(idx)`: `none` = `Err(OutOfBounds)`; `some off` = item read at `off`.
-`idx >= len` → `OutOfBounds` first (/repo fix 504de7e: without it an array of zero-sized items
-answered every index); then `checked_mul` (overflow → OutOfBounds, modelled at 2^64) and `split_off`. -/
+/-- `ComputedArray::get(idx)`: `none` = `Err(OutOfBounds)`; `some off` = item read at `off`
+(`checked_mul` overflow → OutOfBounds, modelled at 2^64).  `get` does not consult `len()`
+(/repo 504de7e added such a check, 6475b6a took it out again: the count of zero-sized items is not
+recoverable from the byte length); what is bounded by `len()` is the traversal, see
+Model/HandIter.lean `travGet`. -/
 def computedGet (dataLen itemLen idx : Nat) : Option Nat :=
-  if idx ≥ computedLen dataLen itemLen then none
-  else if idx * itemLen ≥ 18446744073709551616 then none
+  if idx * itemLen ≥ 18446744073709551616 then none
   else if idx * itemLen ≤ dataLen then some (idx * itemLen) else none
 
 end FontVerif.ReadIter
